@@ -28,8 +28,11 @@ import (
 	"runtime/debug"
 	"sort"
 	"strings"
+	"syscall"
 	"time"
 )
+
+var syscallSIGQUIT = syscall.SIGQUIT
 
 // Case is one concrete, replayable input (or operation sequence / history).
 type Case struct {
@@ -197,6 +200,149 @@ func (d *Driver) Close() {
 	}
 }
 
+// ---------------------------------------------------------------- isolation (hang / crash detection)
+
+var inWorker bool
+
+type workerMsg struct {
+	Out   Outcome `json:"out"`
+	Stack string  `json:"stack"`
+}
+
+// WorkerMain is the child side: one JSON case per line in, one JSON outcome per line out.
+func WorkerMain(p Property) {
+	inWorker = true
+	in := bufio.NewReaderSize(os.Stdin, 1<<20)
+	realOut := os.Stdout
+	os.Stdout = os.Stderr // fiano prints diagnostics with fmt.Printf; keep the protocol channel clean
+	w := bufio.NewWriterSize(realOut, 1<<20)
+	for {
+		line, err := in.ReadBytes('\n')
+		if len(line) > 0 {
+			var c Case
+			if json.Unmarshal(line, &c) == nil {
+				out, stack := SafeRun(p, c)
+				b, _ := json.Marshal(workerMsg{out, stack})
+				w.Write(b)
+				w.WriteByte('\n')
+				w.Flush()
+			}
+		}
+		if err != nil {
+			return
+		}
+	}
+}
+
+type worker struct {
+	cmd    *exec.Cmd
+	in     io.WriteCloser
+	out    *bufio.Reader
+	stderr *tailBuf
+}
+
+type tailBuf struct{ b []byte }
+
+func (t *tailBuf) Write(p []byte) (int, error) {
+	t.b = append(t.b, p...)
+	if len(t.b) > 8192 {
+		t.b = t.b[len(t.b)-8192:]
+	}
+	return len(p), nil
+}
+
+var curWorker *worker
+
+func startWorker(p Property) (*worker, error) {
+	exe, err := os.Executable()
+	if err != nil {
+		return nil, err
+	}
+	cmd := exec.Command(exe, "worker", "-prop", p.ID())
+	in, _ := cmd.StdinPipe()
+	out, _ := cmd.StdoutPipe()
+	tb := &tailBuf{}
+	cmd.Stderr = tb
+	if err := cmd.Start(); err != nil {
+		return nil, err
+	}
+	return &worker{cmd: cmd, in: in, out: bufio.NewReaderSize(out, 1<<20), stderr: tb}, nil
+}
+
+func (w *worker) kill() {
+	w.in.Close()
+	w.cmd.Process.Kill()
+	w.cmd.Wait()
+}
+
+// StopWorkers terminates the isolation child, if any.
+func StopWorkers() {
+	if curWorker != nil {
+		curWorker.kill()
+		curWorker = nil
+	}
+}
+
+func runIsolated(p Property, iso Isolated, c Case) (Outcome, string) {
+	if curWorker == nil {
+		w, err := startWorker(p)
+		if err != nil {
+			panic("cannot start worker: " + err.Error())
+		}
+		curWorker = w
+	}
+	w := curWorker
+	b, _ := json.Marshal(c)
+	type res struct {
+		line []byte
+		err  error
+	}
+	ch := make(chan res, 1)
+	go func() {
+		if _, err := w.in.Write(append(b, '\n')); err != nil {
+			ch <- res{nil, err}
+			return
+		}
+		line, err := w.out.ReadBytes('\n')
+		ch <- res{line, err}
+	}()
+	select {
+	case r := <-ch:
+		if r.err != nil || len(r.line) == 0 {
+			w.cmd.Wait()
+			tail := string(w.stderr.b)
+			curWorker = nil
+			first := "process died"
+			for _, l := range strings.Split(tail, "\n") {
+				if strings.HasPrefix(l, "fatal error:") || strings.HasPrefix(l, "panic:") || strings.Contains(l, "Fatal") {
+					first = l
+					break
+				}
+			}
+			if len(first) > 200 {
+				first = first[:200]
+			}
+			return Outcome{Class: "crash", Checks: []Check{{Tag: "O", What: "no-crash", Exp: "process survives",
+				Got: "crash: " + first, Sig: "crash:" + topFianoFrame(tail)}}}, trimStack(tail)
+		}
+		var m workerMsg
+		if err := json.Unmarshal(r.line, &m); err != nil {
+			return Outcome{Class: "crash", Checks: []Check{{Tag: "O", What: "no-crash", Exp: "process survives",
+				Got: "garbled worker output", Sig: "crash:garbled"}}}, ""
+		}
+		return m.Out, m.Stack
+	case <-time.After(iso.CaseTimeout()):
+		// take a goroutine dump to name the spinning function, then kill
+		w.cmd.Process.Signal(syscallSIGQUIT)
+		time.Sleep(300 * time.Millisecond)
+		w.kill()
+		tail := string(w.stderr.b)
+		curWorker = nil
+		return Outcome{Class: "hang", Checks: []Check{{Tag: "O", What: "terminates", Exp: "returns within " + iso.CaseTimeout().String(),
+			Got: "no result (killed)", Sig: "hang:" + topFianoFrame(tail)}}}, trimStack(tail)
+	}
+}
+
 // ---------------------------------------------------------------- running
 
 type Failure struct {
@@ -298,7 +444,13 @@ type Options struct {
 
 // evalCase runs one case end to end and returns the failing checks.
 func evalCase(p Property, d *Driver, c Case) (Outcome, []Check, []Check, string, error) {
-	out, stack := SafeRun(p, c)
+	var out Outcome
+	var stack string
+	if iso, ok := p.(Isolated); ok && !inWorker {
+		out, stack = runIsolated(p, iso, c)
+	} else {
+		out, stack = SafeRun(p, c)
+	}
 	var ofail, mfail []Check
 	for i := range out.Checks {
 		ck := &out.Checks[i]
@@ -389,6 +541,7 @@ func Run(p Property, opt Options) (*Stats, error) {
 		}
 		defer d.Close()
 	}
+	defer StopWorkers()
 	if opt.KeepFail == 0 {
 		opt.KeepFail = 5
 	}
@@ -526,6 +679,7 @@ func Replay(p Property, driverPath string, c Case) (ok bool, report []Check, err
 		}
 		defer d.Close()
 	}
+	defer StopWorkers()
 	out, ofail, mfail, _, err := evalCase(p, d, c)
 	if err != nil {
 		return false, nil, err
